@@ -690,7 +690,14 @@ class Interp:
             if is_byteslike(item):
                 return z3.Contains(ct, bytes_term(item))
             if is_intlike(item):
-                return z3.Contains(ct, z3.Unit(z3.Int2BV(int_term(item), 8)))
+                it_ = int_term(item)
+                in_range = z3.And(it_ >= 0, it_ <= 255)
+                if self.fmode:
+                    # (a clause is not an execution: outside the byte range the membership is simply false)
+                    return z3.And(in_range, z3.Contains(ct, z3.Unit(z3.Int2BV(it_, 8))))
+                if not self.ctx.branch(in_range):
+                    raise PyRaise(mk_exc(ValueError, "byte must be in range(0, 256)"))
+                return z3.Contains(ct, z3.Unit(z3.Int2BV(it_, 8)))
             raise Unsupported("in on bytes")
         if isinstance(container, (frozenset, set, tuple, list, dict, type(enum.Enum.__members__))) or isinstance(
             container, (range,)
@@ -1383,7 +1390,7 @@ class Interp:
                 # the dict then has a concrete spine, keyed by the engine values themselves
                 same = None
                 for k0 in out:
-                    eq = self.formula(self.eq(k, k0))
+                    eq = self.eq(k, k0)
                     if eq is True or (not isinstance(eq, bool) and self.ctx.prove(_z(eq))):
                         same = k0
                         break
